@@ -566,6 +566,39 @@ func (s *csSuite) opSwap() {
 	s.emit("swap", fmt.Sprintf("in=%s ind=%s ina=%s out=%s outd=%s outa=%s dl=%d buy=%d", inTok, tokenSafe(inD), inAmt, outTok, tokenSafe(outD), outAmt, dl, b), out, "", preMod, pre)
 }
 
+// the onboarding auto-swap: x/onboarding calls the keeper's TradeInputForExactOutput directly, payer = recipient
+func (s *csSuite) opAutoSwap() {
+	r := s.r
+	rcpt := s.w.Users[r.Intn(len(s.w.Users))]
+	tok := s.denom(92)
+	out := s.amount()
+	maxIn := s.amount()
+	p := s.w.App.CoinswapKeeper.GetParams(s.w.Ctx)
+	if _, X, Y, _, ok := s.reserves(tok); ok && X.IsPositive() && Y.IsPositive() {
+		if X.GT(sdkmath.OneInt()) && r.Intn(6) != 0 {
+			out = r.Big(250).Mod(X.SubRaw(1)).AddRaw(1)
+			if r.Intn(2) == 0 && out.GT(sdkmath.NewInt(1000)) {
+				out = out.QuoRaw(int64(1 + r.Intn(1000)))
+			}
+		}
+		if out.IsPositive() && out.LT(X) {
+			q := safeQuote(func() sdkmath.Int { return coinswapkeeper.GetOutputPrice(out, Y, X, p.Fee) })
+			maxIn = s.aroundDir(q, 1)
+			if !maxIn.IsPositive() {
+				maxIn = q
+			}
+		}
+	}
+	preMod, pre := s.modState(), s.w.Snapshot()
+	out2 := s.w.Deliver(func(ctx sdk.Context) error {
+		_, err := s.w.App.CoinswapKeeper.TradeInputForExactOutput(ctx,
+			coinswaptypes.Input{Coin: sdk.Coin{Denom: tok, Amount: maxIn}, Address: rcpt.String()},
+			coinswaptypes.Output{Coin: sdk.Coin{Denom: s.std, Amount: out}, Address: rcpt.String()})
+		return err
+	})
+	s.emit("autoswap", fmt.Sprintf("rcpt=%s ind=%s maxin=%s out=%s", s.w.Alias(rcpt), tokenSafe(tok), maxIn, out), out2, "", preMod, pre)
+}
+
 func (s *csSuite) opSend() {
 	r := s.r
 	src := s.w.Users[r.Intn(len(s.w.Users))]
@@ -712,8 +745,10 @@ func runCoinswap(seed uint64, nOps int, outPath string) map[string]int {
 						s.opAdd()
 					case k < 8:
 						s.opRemove()
-					case k < 16:
+					case k < 15:
 						s.opSwap()
+					case k < 16:
+						s.opAutoSwap()
 					default:
 						s.opSend()
 					}
